@@ -58,6 +58,10 @@ def configs(ctx):
   out.append({'max_queue': 2, 'batch': 2, 'flow': True, 'dynamic': False, 'protocol': 'pickle', 'ndest': 1, 'arm': True, 'hp': False, 'stop': False})
   out.append({'max_queue': 2, 'batch': 1, 'flow': True, 'dynamic': False, 'protocol': 'pickle', 'ndest': 1, 'ratio_reset': True, 'hp': False, 'stop': False})
   out.append({'max_queue': 3, 'batch': 2, 'flow': False, 'dynamic': False, 'protocol': 'line', 'ndest': 1, 'ratio_reset': True, 'hp': False})
+  # two destinations on ONE host (different ports and instances) with DESTINATION_POOL_REPLICAS on: a pool is the set of
+  # connections to one host:port, so each of these destinations is alone in its pool and must get exactly its own traffic
+  out.append({'max_queue': 2, 'batch': 2, 'flow': True, 'dynamic': False, 'protocol': 'pickle', 'ndest': 2, 'pool': True, 'hp': False,
+              'dests': [('10.0.0.1', 2004, 'a'), ('10.0.0.1', 2104, 'b')], 'metrics': ('m', 'n')})
   # the instrumentation tick (recordMetrics) runs between the other events: counters are reported and cleared, and the
   # self-metrics it generates re-enter the send path (where they can be discarded and must be counted like anything else)
   out.append({'max_queue': 1, 'batch': 1, 'flow': False, 'dynamic': False, 'protocol': 'pickle', 'ndest': 1, 'report': True, 'hp': False,
